@@ -1228,6 +1228,24 @@ class ValueGen:
                 opn = rng.choice(["add", "sub"])
                 base = self.op("ar.obj." + opn, "py", opn, [ref(x[0]), ref(y[0])])
             return self.tag_incompat(base, x, y, opn)
+        if kind == "convert" and rng.random() < 0.2:
+            # a DERIVED value asked for in a (simple) unit of some quantity type
+            x = self.pick(sim, lambda v: isinstance(v, (u.Scalar, u.Array)) and M.quantity_of(v).IsDerived() and bool(M.dim_vector(M.quantity_of(v))))
+            if x is not None:
+                fu = self.unit_of(self.qt())
+                if M.foreign_unit_for_derived(x[1], fu):
+                    isarr = isinstance(x[1], u.Array)
+                    form = rng.choice(["get", "copy", "fmt"])
+                    if form == "get" and (not isarr or _len(x[1]) > 0):
+                        o = self.op("cv.GetValues" if isarr else "cv.GetValue", ref(x[0]), "GetValues" if isarr else "GetValue", [fu])
+                    elif form == "fmt" and not isarr:
+                        o = self.op("fmt.GetFormatted.unit", ref(x[0]), "GetFormatted", [fu])
+                    else:
+                        o = self.op("cv.CreateCopy.unit", ref(x[0]), "CreateCopy", [], kw={"unit": fu})
+                    o["f"] = "F1.incompatible"
+                    o["k"] = "flt.incompatible." + o["k"]
+                    o["x"] = [{"o": "reject", "p": "C05", "id": "C05.loud", "why": "unit_derived", "x": ref(x[0]), "unit": fu}]
+                    return o
         if kind == "convert":
             x = self.pick(sim, lambda v: M.quantity_of(v) is not None and M.is_simple_known(v))
             if x is None:
